@@ -196,4 +196,80 @@ theorem randomize_bounds_rat (jrc d r : Num)
   have h3 : 0 ≤ D * (1 - J) * (1 - R) := mul_nonneg h1 (by linarith)
   constructor <;> nlinarith
 
+/-! ### jitter without sign conditions; signs of the numerators -/
+
+/-- a point `a + (b − a)·R` with `0 ≤ R ≤ 1` lies between its ends, whichever of them is the larger. -/
+theorem between_ends_rat (a b R : ℚ) (h0 : 0 ≤ R) (h1 : R ≤ 1) :
+    min a b ≤ a + (b - a) * R ∧ a + (b - a) * R ≤ max a b := by
+  rcases le_total a b with hab | hab
+  · rw [min_eq_left hab, max_eq_right hab]
+    have h2 : 0 ≤ (b - a) * R := mul_nonneg (by linarith) h0
+    have h3 : 0 ≤ (b - a) * (1 - R) := mul_nonneg (by linarith) (by linarith)
+    constructor <;> nlinarith
+  · rw [min_eq_right hab, max_eq_left hab]
+    have h2 : 0 ≤ (a - b) * R := mul_nonneg (by linarith) h0
+    have h3 : 0 ≤ (a - b) * (1 - R) := mul_nonneg (by linarith) (by linarith)
+    constructor <;> nlinarith
+
+/-- `random.uniform(a, b)` with a fraction in `[0, 1]` lies between `a` and `b` in either order. -/
+theorem uniform_between_ends (a b r : Num) (hr0 : 0 ≤ r.toRat) (hr1 : r.toRat ≤ 1) :
+    min a.toRat b.toRat ≤ (uniform a b r).toRat ∧ (uniform a b r).toRat ≤ max a.toRat b.toRat := by
+  rw [uniform_toRat]; exact between_ends_rat _ _ _ hr0 hr1
+
+/-- the jittered duration lies between `jrc·d` and `d`, for `jrc` and `d` of ANY sign and size. -/
+theorem randomize_between_ends (jrc d r : Num) (hr0 : 0 ≤ r.toRat) (hr1 : r.toRat ≤ 1) :
+    min (jrc.toRat * d.toRat) d.toRat ≤ (randomize jrc d r).toRat ∧
+    (randomize jrc d r).toRat ≤ max (jrc.toRat * d.toRat) d.toRat := by
+  have h := uniform_between_ends (d.mul jrc) d r hr0 hr1
+  rw [Num.toRat_mul, mul_comm d.toRat jrc.toRat] at h
+  exact h
+
+/-- the sign of a `Num` is the sign of its numerator (what `time.sleep`'s check looks at in the model). -/
+theorem Num.toRat_nonneg_iff (x : Num) : 0 ≤ x.toRat ↔ 0 ≤ x.n := by
+  simp only [Num.toRat]
+  have hp : (0 : ℚ) < 2 ^ x.k := by positivity
+  constructor
+  · intro h
+    by_contra hn
+    have hneg : (x.n : ℚ) < 0 := by exact_mod_cast (not_le.mp hn)
+    exact absurd h (not_le.mpr (div_neg_of_neg_of_pos hneg hp))
+  · intro h
+    exact div_nonneg (by exact_mod_cast h) (le_of_lt hp)
+
+theorem Num.toRat_le_one_iff (x : Num) : x.toRat ≤ 1 ↔ x.n ≤ 2 ^ x.k := by
+  simp only [Num.toRat]
+  rw [div_le_one (by positivity)]
+  exact_mod_cast Iff.rfl
+
+theorem Num.mul_n_nonneg (a b : Num) (ha : 0 ≤ a.n) (hb : 0 ≤ b.n) : 0 ≤ (a.mul b).n :=
+  Int.mul_nonneg ha hb
+
+theorem Num.pow_n_nonneg (b : Num) (hb : 0 ≤ b.n) (n : Nat) : 0 ≤ (b.pow n).n := by
+  induction n with
+  | zero => simp [Num.pow]
+  | succ n ih => exact Num.mul_n_nonneg _ _ ih hb
+
+theorem Num.ofNat_n_nonneg (n : Nat) : 0 ≤ (Num.ofNat n).n := Int.natCast_nonneg n
+
+/-- the cap keeps a non-negative duration non-negative when `sleepMax` (if given) is not negative.
+    The condition on `sleepMax` cannot be dropped: `capSleep (some (-1)) 2 = -1` (see the `example` in
+    Props/C06.lean). -/
+theorem capSleep_n_nonneg (ms : Option Num) (d : Num) (hd : 0 ≤ d.n) (hm : ∀ m, ms = some m → 0 ≤ m.n) :
+    0 ≤ (capSleep ms d).n := by
+  rw [← Num.toRat_nonneg_iff, capSleep_toRat]
+  apply capQ_nonneg _ _ ((Num.toRat_nonneg_iff d).mpr hd)
+  intro x hx
+  cases ms with
+  | none => simp at hx
+  | some m =>
+    simp only [Option.map, Option.some.injEq] at hx
+    rw [← hx]; exact (Num.toRat_nonneg_iff m).mpr (hm m rfl)
+
+/-- jitter on a non-negative duration with a non-negative `jrc` and a fraction in `[0, 1]` is not negative
+    (`jrc > 1` included: then the value lies in `[d, jrc·d]`). -/
+theorem randomize_n_nonneg (jrc d r : Num) (hj : 0 ≤ jrc.n) (hd : 0 ≤ d.n)
+    (hr0 : 0 ≤ r.toRat) (hr1 : r.toRat ≤ 1) : 0 ≤ (randomize jrc d r).n := by
+  rw [← Num.toRat_nonneg_iff] at hj hd ⊢
+  exact le_trans (le_min (mul_nonneg hj hd) hd) (randomize_between_ends jrc d r hr0 hr1).1
+
 end Pypyr
